@@ -102,6 +102,13 @@ pub fn run_c03(ctx: &Ctx) -> (&'static str, &'static str) {
             big.push(alpha::pow2(64 * j));
         }
         big.push(BigUint::from(0xd201000000010000u64));
+        // multiples of r and their neighbours that still fit 256 bits: a proper binary prefix of the scalar is a multiple of r
+        for d in [0u32, 1, 2] {
+            big.push((r() << 1) + d);
+            big.push((r() << 1) - d);
+            big.push(r() + 2u32 + d);
+        }
+        big = alpha::dedup(big);
         let nb = big.len() as u64;
         let rad = [nb, nb, 2];
         ctx.sweep(
